@@ -818,7 +818,7 @@ func (c *converter) addEndLine(line string) {
 }
 
 func (c *converter) mustCurrentForLabel() string {
-	return forLabel(c.forCounter - 1)
+	return c.fors[len(c.fors)-1].label // Innermost open loop (the counter also counts loops that are already closed).
 }
 
 func (c *converter) mustCurrentForVar() string {
